@@ -448,7 +448,7 @@ impl StructVariantSerializer {
         Self {
             variant_index,
             variant_name,
-            values: Vec::with_capacity(len),
+            values: vec_with_optional_capacity(Some(len)),
         }
     }
 }
@@ -486,7 +486,7 @@ impl TupleVariantSerializer {
         Self {
             variant_index,
             variant_name,
-            values: Vec::with_capacity(len),
+            values: vec_with_optional_capacity(Some(len)),
         }
     }
 }
@@ -509,9 +509,13 @@ impl serde::ser::SerializeTupleVariant for TupleVariantSerializer {
     }
 }
 
+/// The length announced by a `Serialize` implementation is a hint only: do not preallocate more
+/// than a bounded number of elements, the vector grows with the elements that are really pushed
+const MAX_PREALLOCATED_ELEMENTS: usize = 1024;
+
 fn vec_with_optional_capacity<T>(capacity: Option<usize>) -> Vec<T> {
     if let Some(capacity) = capacity {
-        Vec::with_capacity(capacity)
+        Vec::with_capacity(capacity.min(MAX_PREALLOCATED_ELEMENTS))
     } else {
         Vec::new()
     }
